@@ -2,6 +2,7 @@ package exec
 
 import (
 	"fmt"
+	"sort"
 	"go/token"
 	"go/types"
 
@@ -418,30 +419,73 @@ func (m *Machine) checkIndex(i, n *sym.Term) {
 
 func (m *Machine) concreteInt(t *sym.Term, what string) int {
 	if !t.IsConst() {
-		// enumerate feasible small values
-		for k := 0; k < 64; k++ {
-			if m.branch(m.C.Eq(t, m.C.Const(t.W, uint64(k)))) {
-				return k
-			}
+		k := m.enumInt(t, 1<<20)
+		if !k.IsConst() {
+			panic(unsupported("could not concretise " + what))
 		}
-		panic(unsupported("could not concretise " + what))
+		return int(k.Signed())
 	}
 	return int(t.Signed())
 }
 
-// enumInt case-splits a symbolic term over 0..max (deterministic order, so replays align).
+// enumInt case-splits a symbolic term over its feasible values (asked from the solver: one query per
+// value plus one), each value becoming its own path. The chosen value is stored in the decision vector so
+// that re-executions stay aligned. Terms with more than 300 feasible values stay symbolic.
 func (m *Machine) enumInt(t *sym.Term, max int) *sym.Term {
 	if t.IsConst() {
 		return t
 	}
-	for k := 0; k <= max; k++ {
-		kt := m.C.Const(t.W, uint64(k))
-		if m.branch(m.C.Eq(t, kt)) {
-			return kt
+	var v uint64
+	if m.dpos < len(m.prefix) {
+		d := m.prefix[m.dpos]
+		if d == enumKeepSymbolic {
+			m.dpos++
+			m.taken = append(m.taken, d)
+			return t
+		}
+		v = uint64(d)
+	} else {
+		var vals []uint64
+		excl := m.C.Bool(true)
+		for len(vals) <= 300 {
+			res, mv := m.S.CheckPC(m.pc, excl, []*sym.Term{t})
+			if res == sym.Unknown {
+				m.noteInconclusive("enumeration")
+				break
+			}
+			if res != sym.Sat {
+				break
+			}
+			x := mv[t]
+			vals = append(vals, x)
+			excl = m.C.And(excl, m.C.Not(m.C.Eq(t, m.C.Const(t.W, x))))
+		}
+		if len(vals) == 0 {
+			m.Stats.Infeasible++
+			panic(&pathEnd{"infeasible"})
+		}
+		if len(vals) > 300 {
+			m.dpos++
+			m.taken = append(m.taken, enumKeepSymbolic)
+			return t
+		}
+		sort.Slice(vals, func(i, j int) bool { return vals[i] < vals[j] })
+		v = vals[0]
+		for _, o := range vals[1:] {
+			m.work = append(m.work, append(append([]int(nil), m.taken...), int(o)))
+		}
+		if len(vals) > 1 {
+			m.Stats.Forks += len(vals) - 1
 		}
 	}
-	return t // larger values remain symbolic (sound: nothing is dropped)
+	m.dpos++
+	m.taken = append(m.taken, int(v))
+	k := m.C.Const(t.W, v)
+	m.pc = append(m.pc, m.C.Eq(t, k))
+	return k
 }
+
+const enumKeepSymbolic = -0x7fffffff
 
 func (m *Machine) index(v Value, i *sym.Term) Value {
 	switch x := v.(type) {
